@@ -2,6 +2,7 @@ package rules
 
 import (
 	"fmt"
+	"go/token"
 	"go/types"
 	"sort"
 	"strings"
@@ -31,6 +32,7 @@ func runC16(c *Ctx) {
 	r.Rule("R16-stale", "a goroutine that can complete a search is tied to that search: joined before the next search is armed, or guarded by a per-search token", 1)
 	r.Rule("R16-ready", "isready is always answered; no command other than quit (or end of input / close) terminates the command loop", 10)
 	r.Rule("R16-locks", "engine state is accessed only with the engine mutex held; driver state that is not atomic is touched only by the command-loop goroutine; goroutines started by the driver capture only the driver, the context, the result channel and the infinite flag", 4)
+	r.Rule("R16-noblock", "no mutex is held across a blocking channel receive whose producer needs the same mutex (the halt/publish hand-shake cannot deadlock)", 1)
 	r.Rule("R16-nojoin", "state shared between a halted search that is still unwinding and its successor is immutable, atomic or lock-protected: the evaluation-noise generator guards its non-thread-safe source with a mutex", 1)
 
 	d := newDriverModel(c, "R16-exit-halts")
@@ -41,6 +43,7 @@ func runC16(c *Ctx) {
 	c.guard("R16-close-owner", func() { c16Channels(c, d) })
 	c.guard("R16-locks", func() { c16Locks(c, d) })
 	c.guard("R16-nojoin", func() { c16Random(c) })
+	c.guard("R16-noblock", func() { c16NoBlock(c) })
 }
 
 func c16Exits(c *Ctx, d *driverModel) {
@@ -52,25 +55,10 @@ func c16Exits(c *Ctx, d *driverModel) {
 		ok := deferred || len(d.callsDominating(rt.ret.Block(), d.ensureInactive)) > 0
 		r.Check(ok, "R16-exit-halts", cons, rt.site, "", "this exit closes the output channel (deferred close) while a search and its forwarding goroutine may still be running: the search is not halted and the active flag is not cleared on this path")
 	}
-	// ensureInactive = clear the flag, then halt
+	// ensureInactive = clear the flag, then halt - unconditionally
 	{
-		clears, halts := false, false
-		for _, b := range d.ensureInactive.Blocks {
-			for _, ins := range b.Instrs {
-				if call, ok := ins.(ssa.CallInstruction); ok {
-					f := call.Common().StaticCallee()
-					if f == d.engHalt {
-						halts = true
-					}
-					if f != nil && f.String() == "(*sync/atomic.Bool).Store" {
-						if v, ok := constBoolArg(call.Common().Args[1]); ok && !v && !halts {
-							clears = true
-						}
-					}
-				}
-			}
-		}
-		r.Check(clears && halts, "R16-exit-halts", "ensureInactive clears the active flag before halting the engine", c.pos(d.ensureInactive.Pos()), "", fmt.Sprintf("clears first=%v halts=%v", clears, halts))
+		ok, detail := ensureInactiveShape(d)
+		r.Check(ok, "R16-exit-halts", "ensureInactive clears the active flag and then halts the engine on every path", c.pos(d.ensureInactive.Pos()), "", detail)
 	}
 	// R16-ready
 	if b, ok := d.arms["isready"]; ok {
@@ -338,4 +326,134 @@ func c16Random(c *Ctx) {
 		locked = false
 	}
 	r.Check(!usesRand || locked, "R16-nojoin", "eval.Random guards its random source", c.pos(ev.Pos()), "", "Random.Evaluate calls (*rand.Rand) methods without holding a mutex; the same Random (hence the same *rand.Rand, which is not safe for concurrent use) is handed to every search of a game, and Halt returns before the halted search has unwound, so two searches can be inside it at once")
+}
+
+// ensureInactiveShape: the helper clears the driver's flag (Store(false) or Swap(false)) before it
+// halts the engine, and the halt is not conditional: the engine keeps a finished search registered
+// until it is halted, so a skipped halt makes the next Analyze fail.
+func ensureInactiveShape(d *driverModel) (bool, string) {
+	fn := d.ensureInactive
+	var clearAt, haltAt ssa.Instruction
+	for _, b := range fn.Blocks {
+		for _, ins := range b.Instrs {
+			call, ok := ins.(ssa.CallInstruction)
+			if !ok {
+				continue
+			}
+			f := call.Common().StaticCallee()
+			if f == d.engHalt {
+				haltAt = ins
+			}
+			if f != nil && (f.String() == "(*sync/atomic.Bool).Store" || f.String() == "(*sync/atomic.Bool).Swap") {
+				if v, ok := constBoolArg(call.Common().Args[1]); ok && !v && clearAt == nil {
+					clearAt = ins
+				}
+			}
+		}
+	}
+	if clearAt == nil || haltAt == nil {
+		return false, fmt.Sprintf("clears the flag=%v, halts the engine=%v", clearAt != nil, haltAt != nil)
+	}
+	if !instrDominates(clearAt, haltAt) {
+		return false, "the engine is halted before the flag is cleared (a completion racing with the halt can still announce a move)"
+	}
+	for _, b := range fn.Blocks {
+		if ret, ok := b.Instrs[len(b.Instrs)-1].(*ssa.Return); ok && b.Comment != "recover" {
+			if !instrDominates(haltAt, ret) {
+				return false, "Engine.Halt is skipped on some path (e.g. when the driver's flag was already clear): the engine keeps a search that ended by itself registered until it is halted, so the next Analyze fails with 'search already active'"
+			}
+		}
+	}
+	return true, ""
+}
+
+// c16NoBlock: a mutex held across a blocking receive deadlocks if the producer of that channel
+// must take the same mutex first.
+func c16NoBlock(c *Ctx) {
+	r := c.R
+	type held struct {
+		fn    *ssa.Function
+		mutex string
+		ch    string
+		pos   string
+	}
+	var helds []held
+	lockers := map[string][]*ssa.Function{} // mutex field path suffix -> functions locking it
+	closers := map[string][]*ssa.Function{} // closer field (".init") -> functions closing it
+	inScope := func(fn *ssa.Function) bool {
+		p := ""
+		if fn.Pkg != nil {
+			p = fn.Pkg.Pkg.Path()
+		} else if fn.Parent() != nil && fn.Parent().Pkg != nil {
+			p = fn.Parent().Pkg.Pkg.Path()
+		}
+		return strings.HasSuffix(p, "/pkg/search/searchctl") || strings.HasSuffix(p, "/pkg/engine") || strings.HasSuffix(p, "/pkg/engine/uci") || strings.HasSuffix(p, "/pkg/engine/console")
+	}
+	fieldOf := func(e string) string {
+		if i := strings.LastIndex(e, "."); i >= 0 {
+			return e[i:]
+		}
+		return e
+	}
+	for _, fn := range c.P.AllFuncs {
+		if !inScope(fn) {
+			continue
+		}
+		var lock ssa.Instruction
+		var lockName string
+		for _, b := range fn.Blocks {
+			for _, ins := range b.Instrs {
+				switch x := ins.(type) {
+				case *ssa.Call:
+					if f := x.Call.StaticCallee(); f != nil && f.String() == "(*sync.Mutex).Lock" {
+						lock, lockName = ins, pathExpr(x.Call.Args[0])
+						key := namedOfRecv(fn) + fieldOf(lockName)
+						lockers[key] = append(lockers[key], fn)
+					}
+					if f := x.Call.StaticCallee(); f != nil && f.String() == "(*sync.Mutex).Unlock" && lock != nil && pathExpr(x.Call.Args[0]) == lockName {
+						lock = nil
+					}
+					if x.Call.IsInvoke() && x.Call.Method.Name() == "Close" {
+						key := namedOfRecv(fn) + fieldOf(pathExpr(x.Call.Value))
+						closers[key] = append(closers[key], fn)
+					}
+				case *ssa.Defer:
+					if x.Call.IsInvoke() && x.Call.Method.Name() == "Close" {
+						key := namedOfRecv(fn) + fieldOf(pathExpr(x.Call.Value))
+						closers[key] = append(closers[key], fn)
+					}
+				case *ssa.UnOp:
+					if x.Op == token.ARROW && lock != nil && instrDominates(lock, ins) {
+						ch := pathExpr(x.X)
+						ch = strings.TrimSuffix(strings.TrimPrefix(ch, "Closed("), ")")
+						helds = append(helds, held{fn, namedOfRecv(fn) + fieldOf(lockName), namedOfRecv(fn) + fieldOf(ch), c.pos(ins.Pos())})
+					}
+				}
+			}
+		}
+	}
+	var bad []string
+	for _, h := range helds {
+		for _, closer := range closers[h.ch] {
+			for _, locker := range lockers[h.mutex] {
+				if closer == locker && closer != h.fn {
+					bad = append(bad, fmt.Sprintf("%s holds %s while it waits on %s at %s, but %s must lock the same mutex before it signals that channel: if the wait starts first both block forever", c.P.FuncName(h.fn), h.mutex, h.ch, h.pos, c.P.FuncName(closer)))
+				}
+			}
+		}
+	}
+	r.Check(len(bad) == 0, "R16-noblock", "no lock is held across a wait whose signaller needs that lock", "", "", strings.Join(bad, "; "))
+}
+
+func namedOfRecv(fn *ssa.Function) string {
+	f := fn
+	for f.Parent() != nil {
+		f = f.Parent()
+	}
+	if f.Signature.Recv() != nil {
+		if n := namedOf(f.Signature.Recv().Type()); n != nil {
+			return n.Obj().Name()
+		}
+	}
+	return ""
 }
